@@ -228,6 +228,7 @@ def run_engine(ck, tier, seed, pids, with_passloop=False):
         js += [dict(j, hinted=hinted, ppm=9.5, id=j["id"] + ":h%d" % hinted) for j in corpus.random_jobs(n=40 if q else 600, seed=seed + 2, dirs=[0, 1])]
     js += corpus.oob_glyph_jobs(tmp)        # characters mapped to glyph ids beyond the font's last glyph, plain and hinted fonts
     js += corpus.oob_glyph_jobs(tmp, opts=7)
+    js += corpus.stress_jobs()              # deep mark stacks, texts beyond 65536 characters, justified segments
     js += corpus.emptysub_jobs(tmp) + corpus.emptysub_jobs(tmp, opts=7)      # segments shaped with a sub-table that has no passes
     jf = os.path.join(tmp, "corpus_jobs.ndjson")
     open(jf, "w").write("\n".join(json.dumps(j) for j in js) + "\n")
